@@ -50,3 +50,6 @@ func (r *Rand) Perm(n int) []int {
 	}
 	return p
 }
+
+// OneOf returns one of the given ints.
+func (r *Rand) OneOf(vals ...int) int { return vals[r.Intn(len(vals))] }
